@@ -41,6 +41,18 @@ CHECKS = {
   note='Unresolved callees (external libraries, dynamic dispatch) are assumed not to mutate their arguments (documented '
        'false-negative direction); column/row views of a DataFrame are not tracked; pandas mutator table is explicit.',
   ref='DESIGN.md §2 C06, Appendix A'),
+ 'C12': dict(
+  technique='writer/reader key-set agreement over all to_dict/from_dict pairs, field coverage versus __eq__, '
+            'canonical-order and hash-seed/identity independence lints over the serialisation closure, CFG '
+            'dominance of the blanking steps in ModelHash',
+  text='H1-H5 are decided for all 23 serialisable classes and the whole hashing closure on every run: a key written '
+       'but not read (or vice versa), a compared field not serialised or serialised through a different view than '
+       '__eq__ compares, an ordered value built from a set, id()/hash() in the closure, or a path to the encoder '
+       'that skips blanking name/description/path are each structural and each break the property for some model. '
+       'Equality of from_dict(to_dict(x)) for arbitrary expressions is not decided.',
+  note='Trusted: sympy srepr/parse_expr round trip, json.dumps determinism, pandas hashing; dict-key extraction '
+       'recognises the idioms listed in DESIGN.md (literal, helper extension, delegation, cls(**d)).',
+  ref='DESIGN.md §2 C12'),
 }
 NA = {}
 
